@@ -48,6 +48,7 @@ FamRes ==
   UNION { { Dom(<<S_example, r>>), Dom(<<Lb(7), r>>), Dom(<<S_example, S_example, r>>), Dom(<<r, S_com>>), Dom(<<r, r>>),
             Dom(<<x, r>>) \o <<DOT>>, r \o <<DOT>> } : r \in ResAll } \cup
   UNION { { e, Dom(<<x, e>>), Dom(<<Lb(7), e>>) } : e \in UNION { Edit1(r) : r \in ResAll } } \cup
+  UNION { UNION { { SubSeq(r, 1, j), Dom(<<x, SubSeq(r, 1, j)>>), Dom(<<x, SubSeq(r, j, Len(r))>>) } : j \in 2..Len(r) } : r \in ReservedTlds } \cup
   { Dom(<<S_example, <<99, 111>>>>), Dom(<<x \o S_example, S_com>>), Dom(<<S_example, S_com \o <<109>>>>), Dom(<<x, S_test \o <<115>>>>),
     Dom(<<S_example \o <<97>>>>), Dom(<<S_example, S_com, x>>), Dom(<<S_com, S_example>>) }
 
@@ -57,7 +58,8 @@ Next == \/ k = -2 /\ \E b \in 0..63 : d' = <<b>> /\ k' = -1
         \/ k = -1 /\ Part = 1 /\ \E i \in {j \in 1..NRows : j % 64 = d[1]} : \E y \in RowFam(i) : d' = y /\ k' = 0
         \/ k = -1 /\ Part = 1 /\ d[1] = 0 /\ \E y \in Unlisted : d' = y /\ k' = 0
         \/ k = -1 /\ Part = 2 /\ \E y \in FamRes : Bucket(y) = d[1] /\ d' = y /\ k' = 0
-Addr == <<97, AT>> \o d
+\* single-label domains get a dotted local part: the FQDN test must look at the domain only
+Addr == IF Has(d, DOT) THEN <<97, AT>> \o d ELSE <<97, DOT, 98, AT>> \o d
 \* the reserved-name machine agrees with the property on every domain of the families (valid host names without root dot)
 SpecialAgrees == (IsHostname(O, d) /\ ~HasRoot(d)) => ((SpecialRc(d) = 1) = IsReserved(d))
 Inv == k = 0 => (EmailAllConform(O, Addr) /\ SpecialAgrees /\ PrintT(ToJson(EmailVec(0, O, Addr))))
